@@ -40,6 +40,8 @@ type baseFunc struct {
 	Sig     string   `json:"sig"`
 	Params  []string `json:"params"`
 	Results []string `json:"results"`
+	Ord     int      `json:"ord"` // rank of the declaration in the package (file name, offset)
+	RecvVar string   `json:"recvvar"`
 }
 
 type baseField struct {
@@ -47,12 +49,15 @@ type baseField struct {
 	Type  string `json:"type"`
 	Name  string `json:"name"`
 	FType string `json:"ftype"`
+	Ord   int    `json:"ord"` // field index
 }
 
 type baseVar struct {
 	Pkg  string `json:"pkg"`
 	Name string `json:"name"`
 	Type string `json:"type"`
+	Ord  int    `json:"ord"`
+	Init string `json:"init"` // source text of the initialiser, if any
 }
 
 type baseType struct {
@@ -162,9 +167,14 @@ func BaselineOf(p *Prog) []byte {
 	for _, path := range paths {
 		pk := p.Pkgs[path]
 		q := relQualifier(pk.Types)
-		for _, fn := range declaredFuncs(pk) {
+		dfs := declaredFuncs(pk)
+		sort.SliceStable(dfs, func(i, j int) bool { return posKey(p, pk, dfs[i]) < posKey(p, pk, dfs[j]) })
+		for ord, fn := range dfs {
 			sig := fn.Type().(*types.Signature)
-			bf := baseFunc{Pkg: Rel(path), Recv: recvName(sig), Name: fn.Name(), Sig: sigString(sig, q)}
+			bf := baseFunc{Pkg: Rel(path), Recv: recvName(sig), Name: fn.Name(), Sig: sigString(sig, q), Ord: ord}
+			if sig.Recv() != nil {
+				bf.RecvVar = sig.Recv().Name()
+			}
 			for i := 0; i < sig.Params().Len(); i++ {
 				bf.Params = append(bf.Params, sig.Params().At(i).Name())
 			}
@@ -185,13 +195,25 @@ func BaselineOf(p *Prog) []byte {
 			}
 			for i := 0; i < st.NumFields(); i++ {
 				f := st.Field(i)
-				t.Fields = append(t.Fields, baseField{Pkg: Rel(path), Type: name, Name: f.Name(), FType: types.TypeString(f.Type(), q)})
+				t.Fields = append(t.Fields, baseField{Pkg: Rel(path), Type: name, Name: f.Name(), FType: types.TypeString(f.Type(), q), Ord: i})
 			}
+		}
+		inits := varInits(p, pk)
+		var vobjs []types.Object
+		for _, name := range scope.Names() {
+			if o, ok := scope.Lookup(name).(*types.Var); ok {
+				vobjs = append(vobjs, o)
+			}
+		}
+		sort.SliceStable(vobjs, func(i, j int) bool { return posKey(p, pk, vobjs[i]) < posKey(p, pk, vobjs[j]) })
+		vord := map[types.Object]int{}
+		for i, o := range vobjs {
+			vord[o] = i
 		}
 		for _, name := range scope.Names() {
 			switch o := scope.Lookup(name).(type) {
 			case *types.Var:
-				t.Vars = append(t.Vars, baseVar{Pkg: Rel(path), Name: name, Type: types.TypeString(o.Type(), q)})
+				t.Vars = append(t.Vars, baseVar{Pkg: Rel(path), Name: name, Type: types.TypeString(o.Type(), q), Ord: vord[o], Init: inits[o]})
 			case *types.TypeName:
 				if !o.IsAlias() {
 					t.Types = append(t.Types, baseType{Pkg: Rel(path), Name: name, Shape: typeShape(o.Type(), q), Methods: methodNames(o)})
@@ -237,6 +259,9 @@ func renameBack(p *Prog) (map[string][]byte, []string) {
 			}
 		}
 		// ---- functions and methods
+		type fclass struct{ recv, sig string }
+		fMissing := map[fclass][]pairMissing{}
+		fCands := map[fclass][]pairCand{}
 		for _, bf := range base.Funcs {
 			if bf.Pkg != rel || ast.IsExported(bf.Name) {
 				continue
@@ -244,28 +269,21 @@ func renameBack(p *Prog) (map[string][]byte, []string) {
 			if _, present := curByKey[bf.Recv+"."+bf.Name]; present {
 				continue
 			}
-			var cands []*types.Func
-			for _, fn := range cur {
-				sig := fn.Type().(*types.Signature)
-				if recvName(sig) != bf.Recv || baseNames[bf.Recv+"."+fn.Name()] || ast.IsExported(fn.Name()) {
-					continue
-				}
-				if sigString(sig, q) == bf.Sig {
-					cands = append(cands, fn)
-				}
+			k := fclass{bf.Recv, bf.Sig}
+			fMissing[k] = append(fMissing[k], pairMissing{name: bf.Name, ord: bf.Ord})
+		}
+		for _, fn := range cur {
+			sig := fn.Type().(*types.Signature)
+			if baseNames[recvName(sig)+"."+fn.Name()] || ast.IsExported(fn.Name()) {
+				continue
 			}
-			// other missing baseline functions with the same receiver and signature make it ambiguous
-			ambiguous := 0
-			for _, other := range base.Funcs {
-				if other.Pkg == rel && other.Recv == bf.Recv && other.Sig == bf.Sig && !ast.IsExported(other.Name) {
-					if _, present := curByKey[other.Recv+"."+other.Name]; !present {
-						ambiguous++
-					}
-				}
-			}
-			if len(cands) == 1 && ambiguous == 1 {
-				renames[cands[0]] = bf.Name
-				notes = append(notes, fmt.Sprintf("%s: %s.%s <- %s", rel, bf.Recv, bf.Name, cands[0].Name()))
+			k := fclass{recvName(sig), sigString(sig, q)}
+			fCands[k] = append(fCands[k], pairCand{obj: fn, key: posKey(p, pk, fn)})
+		}
+		for k, ms := range fMissing {
+			for o, name := range pairRenamed(ms, fCands[k]) {
+				renames[o] = name
+				notes = append(notes, fmt.Sprintf("%s: %s.%s <- %s", rel, k.recv, name, o.Name()))
 			}
 		}
 		// ---- struct fields
@@ -292,28 +310,32 @@ func renameBack(p *Prog) (map[string][]byte, []string) {
 			for i := 0; i < st.NumFields(); i++ {
 				curF[st.Field(i).Name()] = st.Field(i)
 			}
+			baseOrd := map[string]int{}
+			for _, f := range base.Fields {
+				if f.Pkg == rel && f.Type == tname {
+					baseOrd[f.Name] = f.Ord
+				}
+			}
+			flMissing := map[string][]pairMissing{}
+			flCands := map[string][]pairCand{}
 			for bn, bt := range baseF {
 				if _, present := curF[bn]; present || ast.IsExported(bn) {
 					continue
 				}
-				var cands []*types.Var
-				for cn, cv := range curF {
-					if _, known := baseF[cn]; known || ast.IsExported(cn) {
-						continue
-					}
-					if types.TypeString(cv.Type(), q) == bt {
-						cands = append(cands, cv)
-					}
+				flMissing[bt] = append(flMissing[bt], pairMissing{name: bn, ord: baseOrd[bn]})
+			}
+			for i := 0; i < st.NumFields(); i++ {
+				cv := st.Field(i)
+				if _, known := baseF[cv.Name()]; known || ast.IsExported(cv.Name()) {
+					continue
 				}
-				missingSame := 0
-				for bn2, bt2 := range baseF {
-					if _, present := curF[bn2]; !present && bt2 == bt {
-						missingSame++
-					}
-				}
-				if len(cands) == 1 && missingSame == 1 {
-					renames[cands[0]] = bn
-					notes = append(notes, fmt.Sprintf("%s: %s.%s <- %s", rel, tname, bn, cands[0].Name()))
+				ft := types.TypeString(cv.Type(), q)
+				flCands[ft] = append(flCands[ft], pairCand{obj: cv, key: fmt.Sprintf("%09d", i)})
+			}
+			for bt, ms := range flMissing {
+				for o, name := range pairRenamed(ms, flCands[bt]) {
+					renames[o] = name
+					notes = append(notes, fmt.Sprintf("%s: %s.%s <- %s", rel, tname, name, o.Name()))
 				}
 			}
 		}
@@ -329,32 +351,30 @@ func renameBack(p *Prog) (map[string][]byte, []string) {
 				baseV[v.Name] = v.Type
 			}
 		}
-		for bn, bt := range baseV {
-			if scope.Lookup(bn) != nil || ast.IsExported(bn) {
+		inits := varInits(p, pk)
+		vMissing := map[string][]pairMissing{}
+		vCands := map[string][]pairCand{}
+		for _, v := range base.Vars {
+			if v.Pkg != rel || scope.Lookup(v.Name) != nil || ast.IsExported(v.Name) {
 				continue
 			}
-			var cands []types.Object
-			for _, cn := range scope.Names() {
-				cv, ok := scope.Lookup(cn).(*types.Var)
-				if !ok || ast.IsExported(cn) {
-					continue
-				}
-				if _, known := baseV[cn]; known {
-					continue
-				}
-				if types.TypeString(cv.Type(), q) == bt {
-					cands = append(cands, cv)
-				}
+			vMissing[v.Type] = append(vMissing[v.Type], pairMissing{name: v.Name, ord: v.Ord, init: v.Init})
+		}
+		for _, cn := range scope.Names() {
+			cv, ok := scope.Lookup(cn).(*types.Var)
+			if !ok || ast.IsExported(cn) {
+				continue
 			}
-			missingSame := 0
-			for bn2, bt2 := range baseV {
-				if scope.Lookup(bn2) == nil && bt2 == bt {
-					missingSame++
-				}
+			if _, known := baseV[cn]; known {
+				continue
 			}
-			if len(cands) == 1 && missingSame == 1 {
-				renames[cands[0]] = bn
-				notes = append(notes, fmt.Sprintf("%s: var %s <- %s", rel, bn, cands[0].Name()))
+			vt := types.TypeString(cv.Type(), q)
+			vCands[vt] = append(vCands[vt], pairCand{obj: cv, key: posKey(p, pk, cv), init: inits[cv]})
+		}
+		for vt, ms := range vMissing {
+			for o, name := range pairRenamed(ms, vCands[vt]) {
+				renames[o] = name
+				notes = append(notes, fmt.Sprintf("%s: var %s <- %s", rel, name, o.Name()))
 			}
 		}
 		baseT := map[string]baseType{}
@@ -434,6 +454,9 @@ func renameBack(p *Prog) (map[string][]byte, []string) {
 				renames[v] = want
 				notes = append(notes, fmt.Sprintf("%s: %s.%s parameter/result %s <- %s", rel, bf.Recv, bf.Name, want, v.Name()))
 			}
+			if sig.Recv() != nil {
+				try(sig.Recv(), bf.RecvVar)
+			}
 			for i := 0; i < sig.Params().Len(); i++ {
 				try(sig.Params().At(i), bf.Params[i])
 			}
@@ -496,4 +519,104 @@ func renameBack(p *Prog) (map[string][]byte, []string) {
 	}
 	sort.Strings(notes)
 	return out, notes
+}
+
+
+// posLess orders declarations by file base name, then offset.
+func posKey(p *Prog, pk *packages.Package, o types.Object) string {
+	ps := pk.Fset.Position(o.Pos())
+	f := ps.Filename
+	if i := strings.LastIndex(f, "/"); i >= 0 {
+		f = f[i+1:]
+	}
+	return fmt.Sprintf("%s:%09d", f, ps.Offset)
+}
+
+// varInits: source text of the initialiser of every package-level variable declared with one.
+func varInits(p *Prog, pk *packages.Package) map[types.Object]string {
+	out := map[types.Object]string{}
+	for _, f := range pk.Syntax {
+		fname := pk.Fset.Position(f.Pos()).Filename
+		var src []byte
+		if b, ok := p.Cfg.Overlay[fname]; ok {
+			src = b
+		} else if b, err := os.ReadFile(fname); err == nil {
+			src = b
+		}
+		for _, d := range f.Decls {
+			gd, ok := d.(*ast.GenDecl)
+			if !ok {
+				continue
+			}
+			for _, sp := range gd.Specs {
+				vs, ok := sp.(*ast.ValueSpec)
+				if !ok || len(vs.Values) != len(vs.Names) {
+					continue
+				}
+				for i, n := range vs.Names {
+					o := pk.TypesInfo.Defs[n]
+					if o == nil {
+						continue
+					}
+					a, b := pk.Fset.Position(vs.Values[i].Pos()).Offset, pk.Fset.Position(vs.Values[i].End()).Offset
+					if a >= 0 && b <= len(src) && a < b {
+						out[o] = string(src[a:b])
+					}
+				}
+			}
+		}
+	}
+	return out
+}
+
+type pairMissing struct {
+	name string
+	ord  int
+	init string
+}
+
+type pairCand struct {
+	obj  types.Object
+	key  string // posKey
+	init string
+}
+
+// pairRenamed matches the baseline names of one class (same receiver and signature, same struct and
+// field type, same variable type) that are missing from the tree with the declarations of that class
+// the baseline does not know. One of each: paired. Several of each, equally many: paired by equal
+// initialiser text when that is a bijection, else by declaration order. Otherwise nothing is paired.
+func pairRenamed(missing []pairMissing, cands []pairCand) map[types.Object]string {
+	out := map[types.Object]string{}
+	if len(missing) == 0 || len(missing) != len(cands) {
+		return out
+	}
+	if len(missing) == 1 {
+		out[cands[0].obj] = missing[0].name
+		return out
+	}
+	byInit := map[string][]int{}
+	for i, m := range missing {
+		byInit[m.init] = append(byInit[m.init], i)
+	}
+	ok := true
+	tmp := map[types.Object]string{}
+	used := map[int]bool{}
+	for _, c := range cands {
+		is := byInit[c.init]
+		if c.init == "" || len(is) != 1 || used[is[0]] {
+			ok = false
+			break
+		}
+		used[is[0]] = true
+		tmp[c.obj] = missing[is[0]].name
+	}
+	if ok {
+		return tmp
+	}
+	sort.Slice(missing, func(i, j int) bool { return missing[i].ord < missing[j].ord })
+	sort.Slice(cands, func(i, j int) bool { return cands[i].key < cands[j].key })
+	for i := range missing {
+		out[cands[i].obj] = missing[i].name
+	}
+	return out
 }
